@@ -14,54 +14,54 @@ NOT_READY = set(sys.argv[1:])  # property ids to list under not_applicable for n
 TEXT = {
  'C01': ('spawn/join storms (thread, coroutine, nested, Builder name/stack/id, spawn_local, detached) with per-coroutine run counters, a running-flag per segment, '
          'finished-before-join checks, exact join results (value / panic payload / Cancel) and the hook-fed residency monitor (a coroutine is never resumed while '
-         'resident on another OS thread); single-stall sweep over scheduler, queue, join and park windows; ASan lane for the detached cases',
+         'resident on another OS thread); single-stall sweep over scheduler, queue, join and park windows; ASan lane for the detached cases Additions: fairness in logical steps (yieldspin / yieldspinio: a coroutine made ready from outside the workers runs although every worker is saturated by yielders; verdict = yields executed by every spinner after the waker returned), idle-spin livelock criterion, run-queue owner monitor, address-reuse lane for the run-queue blocks (ABA of the packed head word, D34), scheduler-variant lanes.',
          'runtime monitoring: event-log + residency monitor under hook-stall sweeps; ASan'),
  'C02': ('park / park_timeout / unpark sequences on fresh Blockers (thread and coroutine) and on the coroutine\'s own handle with 1-3 concurrent unparkers and timer expiry; '
-         'no-lost-token = every park whose unpark was called after the previous return does return (quiescence oracle), Blocker honesty (Timeout never early, Ok only after an unpark call, never Canceled) Additions: fractional-ms time-outs (Timeout never before the deadline), directed shards over PARK_/CANCEL_/YIELD_ windows, no-hook stress (parkrace).',
+         'no-lost-token = every park whose unpark was called after the previous return does return (quiescence oracle), Blocker honesty (Timeout never early, Ok only after an unpark call, never Canceled) Additions: fractional-ms time-outs (Timeout never before the deadline), directed shards over PARK_/CANCEL_/YIELD_ windows, no-hook stress (parkrace). FastBlocker rounds; fairness towards an unparked coroutine while the workers are saturated by yielders (yieldspin, verdict in yields executed).',
          'runtime monitoring: history oracle + quiescence oracle under hook-stall sweeps'),
  'C05': ('2-6 mixed thread/coroutine lockers with lock/try_lock, RAII occupancy counter, non-atomic payload invariant, completed-sections count, optional cancel of a waiter released at each hook window; '
-         'end state: lock free, not poisoned; stranded lockers found by the quiescence oracle Additions: Condvar re-lock under cancel (relock, cvc) with occupancy checks, directed shards over MUTEX_/SYNCBLOCKER_/PARK_ windows with overtake plans, no-hook stress (hsmutex handshake, lockrace with 3-4 plain threads).',
+         'end state: lock free, not poisoned; stranded lockers found by the quiescence oracle Additions: Condvar re-lock under cancel (relock, cvc) with occupancy checks, directed shards over MUTEX_/SYNCBLOCKER_/PARK_ windows with overtake plans, no-hook stress (hsmutex handshake, lockrace with 3-4 plain threads). Unlock past 40-2500 cancelled lockers on a default-stack coroutine (stale).',
          'runtime monitoring: occupancy/payload monitors + quiescence oracle under hook-stall sweeps; ASan'),
  'C06': ('mpsc/spsc/mpmc exchanges with unique values in drop-counting payloads, 1-4 senders/receivers (threads and coroutines), blocking/timed/polling receivers, > 1 queue block; '
          'exactly-once, nothing unsent, per-sender order per receiver, payload dropped exactly once, blocked receivers woken (quiescence oracle)',
          'runtime monitoring: exactly-once/order checker over recorded histories under hook-stall sweeps; ASan'),
  'C07': ('last-sender drop aimed into each receiver window (role-directed gate stalls at the try-receive / register / re-check hooks), 1-4 mpmc receivers, with and without queued values; '
-         'every receiver drains then sees Disconnected (sticky), none hangs; receiver-drop variant: send fails with the same value, leftovers dropped exactly once',
+         'every receiver drains then sees Disconnected (sticky), none hangs; receiver-drop variant: send fails with the same value, leftovers dropped exactly once Additions: no-hook stress with try_recv polling rounds, Disconnected never before the value that was sent ahead of the drop.',
          'runtime monitoring: disconnect-sequence checker + quiescence oracle under role-directed hook stalls'),
  'C08': ('timed waits of ten kinds (sleep, Blocker::park, Semphore/SyncFlag/Condvar wait_timeout, mpsc/mpmc recv_timeout, Cqueue::poll, park_timeout, long park released early) over duration classes '
          '0,1ns,999ns,1us,500us,999999ns,1ms,1ms+1ns,1.5ms,1.7ms,2.999ms,10ms,10.5ms + random, coroutine and thread context, timer mixes with stale heads; never early (real clock lower bound), '
-         'always returns (quiescence), prompt only when unperturbed and calibrated; probe of known finding D2',
+         'always returns (quiescence), prompt only when unperturbed and calibrated; probe of known finding D2 Additions: a sleeper / timed waiter becomes ready while every worker is saturated by yielders (yieldspin).',
          'runtime monitoring: never-early / quiescence / calibrated promptness oracles under hook-stall sweeps; ASan'),
  'C09': ('cancel of a target blocked in 16 primitives (park, park_timeout, sleep, Mutex, RwLock read/write, Semphore wait/wait_timeout, SyncFlag, Condvar wait/wait_timeout, mpsc, mpmc, join, select!, Blocker) '
          'plus socket read/accept/recv_from, the cancel released at every hook window on the path of target and waker; join()==Err(Cancel) without hanging, stack-owned values dropped once, locks free and unpoisoned, '
          'permits conserved, bystanders complete Additions: cancelled reader (rwcr), cancel in the Condvar re-lock (relock), cancel of a timed socket operation on a shared socket (iocant).',
          'runtime monitoring: fault enumeration (cancel point x primitive x hook window) with drop counters and bystander oracles; ASan'),
  'C10': ('Semphore: prefix condition on the logical clock (successes returned <= init + posts called), final value == init + posts - successes, all waiters proceed when permits suffice, '
-         'time-out / cancel colliding with post; SyncFlag: every waiter returns, is_fired never false after fire() returned (sampler actor) Additions: semaphore used as a lock by 3-4 parties (occupancy <= init), several concurrent firers, overtake plans over SEM_ windows, no-hook stress (hssem, semrace).',
+         'time-out / cancel colliding with post; SyncFlag: every waiter returns, is_fired never false after fire() returned (sampler actor) Additions: semaphore used as a lock by 3-4 parties (occupancy <= init), several concurrent firers, overtake plans over SEM_ windows, no-hook stress (hssem, semrace). post / fire past 40-2500 timed-out waiters on a default-stack coroutine (stale).',
          'runtime monitoring: conservation checker over recorded histories + quiescence oracle under hook-stall sweeps'),
  'C11': ('Condvar token protocol (tokens >= consumers, notify_one/notify_all, timed and cancelled waiters), mutex owned after wait; Barrier generations: exactly one leader, nobody released before n*g arrivals; '
-         'WaitGroup: wait returns exactly after all other clones dropped Additions: give-up mode with exact token accounting (impatient consumers leave, a token left beside a sleeping patient consumer = lost notification), re-lock under cancel (relock), no-hook stress (cvrace).',
+         'WaitGroup: wait returns exactly after all other clones dropped Additions: give-up mode with exact token accounting (impatient consumers leave, a token left beside a sleeping patient consumer = lost notification), re-lock under cancel (relock), no-hook stress (cvrace). notify_one past 40-2500 timed-out waiters (stale); waits on a mutex that gets poisoned return holding it (cvpoison).',
          'runtime monitoring: token/generation monitors + quiescence oracle under hook-stall sweeps'),
  'C12': ('sequential random op sequences against a reference model (which of Ok / Poisoned(guard) / WouldBlock is allowed in which state, guard drops never panic, lock free afterwards) and concurrent readers/writers '
-         'on clean and poisoned locks with (readers, writers) occupancy counters, cancelled writer waiters; probe of known finding D13 Additions: cancelled *reader* beside other readers, exclusion re-checked with fresh parties (rwcr); true release lane (no debug assertions); directed shards over RW_ windows.',
+         'on clean and poisoned locks with (readers, writers) occupancy counters, cancelled writer waiters; probe of known finding D13 Additions: cancelled *reader* beside other readers, exclusion re-checked with fresh parties (rwcr); true release lane (no debug assertions); directed shards over RW_ windows. Write-unlock past cancelled writers on a default-stack coroutine (stale).',
          'runtime monitoring: reference-model monitor + occupancy monitor under hook-stall sweeps'),
  'C13': ('panic storms over a 4-stack pool: panics before/after yields, under Mutex and RwLock-write guards, in scope bodies with live children, in scoped children beside running siblings, in select arms, a cancelled lock holder; '
-         'exact payloads at join, exact bystander results, no bystander ever sees thread::panicking(), pinned probes on every worker (alive, not panicking, poisoning works), poison-and-release / no poison on cancel Additions: detached panickers on the pooled stacks before the storm; select arm panic against a channel that never fires (no timing).',
+         'exact payloads at join, exact bystander results, no bystander ever sees thread::panicking(), pinned probes on every worker (alive, not panicking, poisoning works), poison-and-release / no poison on cancel Additions: detached panickers on the pooled stacks before the storm; select arm panic against a channel that never fires (no timing). Condvar waits on a mutex poisoned by the notifier (cvpoison).',
          'runtime monitoring: fault enumeration over panic points with bystander oracles under hook-stall sweeps; ASan'),
  'C14': ('scope / join! inside a select! arm / nested scopes with 1-6 children; owner faults (cancel released at each hook window, panic in the body, child panic); exit guard in the owner frame asserts no child running, '
-         'children log steps after exit, canary in the owner frame (ASan: heap-use-after-free), panic propagation',
+         'children log steps after exit, canary in the owner frame (ASan: heap-use-after-free), panic propagation Additions: cqueue scopes whose arms carry a guard among their captures that must find the enclosing frame alive, also after another arm has panicked (cq, D37).',
          'runtime monitoring: fault enumeration (owner fault x hook window x child progress) with exit-guard monitor; ASan'),
  'C15': ('coroutine_local! keys with owner-tagged drop-counting values across yields/migrations; pool capacity 2 so successors provably reuse stacks whose previous occupant returned / panicked / was cancelled (park, sleep) / '
          'timed out / ran a select; successor must see initial values, run the initialiser, get Timeout (not Canceled, not early) from a fresh park, no inherited cancel; thread fallback per thread; drops exactly once Additions: predecessors = residue x ending (incl. a cancel taken by wait_io, user panic), successors\' first blocking call varies (timed park, plain unpark, contended lock), leaked local storage reported as such.',
          'runtime monitoring: ownership/initialiser/drop monitors + fresh-start probes under hook-stall sweeps; ASan'),
  'C16': ('one-shot select arms fired simultaneously or staggered, poll loops with repeated events, 2-3 ms poll time-outs, panicking arms, removed selectors, early scope exit; per arm tops/bottoms/delivered counts, '
-         'bottom never before/without/twice, Finished only after all arms ended, Timeout never early, panic payload reaches the poller, nothing alive after the scope Additions: forever mode (poll(None) beside a silent live arm: only the wake-up of the panicking arm\'s final event ends it), directed shards over CQ_ windows incl. the count/registration window (D30), no-hook stress (cqrace).',
+         'bottom never before/without/twice, Finished only after all arms ended, Timeout never early, panic payload reaches the poller, nothing alive after the scope Additions: forever mode (poll(None) beside a silent live arm: only the wake-up of the panicking arm\'s final event ends it), directed shards over CQ_ windows incl. the count/registration window (D30), no-hook stress (cqrace). A removed arm followed by the real panic of another arm; a guard among each arm's captures that must find the enclosing frame alive (D37).',
          'runtime monitoring: per-arm event accounting under hook-stall sweeps; ASan'),
  'C17': ('real sockets and real epoll: unix-stream and loopback TCP (v4/v6) one-way transfers and accept/connect/echo with split read/write halves, 0..600 KB payloads, random chunking incl. write_vectored, '
-         'random buffer sizes, small SO_SNDBUF, coroutine and thread callers; UDP/unix datagram boundaries; stream equality, EOF only at end, stranded I/O judged with the kernel view (poll/FIONREAD); probe of known finding D14 Additions: descriptor churn (sessions closing and opening sockets at once, refused connects; descriptor numbers reused across threads), the shapes of may\'s own unix-socket tests, 16-worker shards in the thorough tier.',
+         'random buffer sizes, small SO_SNDBUF, coroutine and thread callers; UDP/unix datagram boundaries; stream equality, EOF only at end, stranded I/O judged with the kernel view (poll/FIONREAD); probe of known finding D14 Additions: descriptor churn (sessions closing and opening sockets at once, refused connects; descriptor numbers reused across threads), the shapes of may\'s own unix-socket tests, 16-worker shards in the thorough tier. split() full duplex, peek, CoIo, wait_io (ioext); readiness while the workers are saturated by yielders (yieldspinio); timer-list contract monitor (an io timer entry is unlinked by its selector thread only, D36).',
          'runtime monitoring: byte-stream/datagram checker + kernel-view readiness oracle under hook-stall sweeps; ASan'),
  'C18': ('timed read sequences (500us..5ms) with arrivals at d/4, d-150us, d+300us, never, on unix and TCP streams: time-out never early also for later operations, data in time is delivered, socket usable afterwards; '
-         'cancel of coroutines blocked in read/accept/recv_from released at each hook window: Err(Cancel), peer sees close, bystander transfer intact; probe of the I/O sibling of D2 Additions: cancel of a timed operation on a socket that lives on, followed by timed operations before and after the stale deadline (iocant); the I/O sibling of D2 is repaired, its probe stays as a regression probe.',
+         'cancel of coroutines blocked in read/accept/recv_from released at each hook window: Err(Cancel), peer sees close, bystander transfer intact; probe of the I/O sibling of D2 Additions: cancel of a timed operation on a socket that lives on, followed by timed operations before and after the stale deadline (iocant); the I/O sibling of D2 is repaired, its probe stays as a regression probe; cancel of seven receive-side calls, a cancelled target that is still suspended at quiescence is a violation whatever the kernel view; connect_timeout against a full accept queue (ioext); timed request/answer stress (iotrace); io time-out while the workers are saturated by yielders; timer-list contract monitor (D36).',
          'runtime monitoring: timed-I/O oracle + cancel fault injection under hook-stall sweeps; ASan'),
  'C03': ('may_queue mpsc/spsc block queues on plain threads: histories with unique values and logical call/return stamps checked for the four queue anomalies (fresh, repeat, order, empty), len bounds, '
          'drop-exactly-once at queue drop; role-directed stalls in the reserve/write/publish and block-boundary windows; native + ASan + Miri memory mode (+ Miri race mode and TSan for mpsc) Additions: native-reuse lane (recycled blocks).',
